@@ -3,6 +3,7 @@ import itertools
 import os
 import random
 import shutil
+import subprocess
 
 from .. import gen as G
 from .. import parse_out as P
@@ -132,9 +133,36 @@ def pair_job(arg):
         if cfg is not None:
             if scope == "local":
                 local = cfg
-            else:
+            elif scope != "worktree":
                 env = cfg_env(scope, cfg[0], cfg[1], d, "%d%s" % (jid, tag))
         gd = gitdir
+        if cfg is not None and scope == "worktree":
+            # per-worktree configuration (extensions.worktreeConfig): the entry lives in the linked worktree's config.worktree,
+            # a conflicting one in the main worktree's, and the run starts inside the linked worktree
+            gd = os.path.join(d, "wtcfg-%d%s" % (jid, tag))
+            shutil.copytree(gitdir, gd)
+            wt = os.path.join(d, "wtcfg-%d%s-wt" % (jid, tag))
+            head = G.rgit(gd, "rev-parse", "--verify", "refs/heads/main^{commit}", check=False).stdout.decode().strip()
+            pw = subprocess.run([G.REAL_GIT, "--git-dir", gd, "worktree", "add", "--detach", "--no-checkout", wt, head], env=G.git_env(),
+                                stdout=subprocess.PIPE, stderr=subprocess.PIPE)
+            cfgp = os.path.join(gd, "config")
+            t = open(cfgp).read().replace("repositoryformatversion = 0", "repositoryformatversion = 1")
+            open(cfgp, "w").write(t + "[extensions]\n\tworktreeConfig = true\n")
+            wdir = os.path.join(gd, "worktrees", os.path.basename(wt))
+            sec, var = cfg[0].split(".", 1)
+            other = {"threshold": "17.5", "names": "hash" if cfg[1] != "hash" else "none", "jsonversion": "1" if cfg[1] == "2" else "2",
+                     "progress": "true"}.get(var.lower(), "1")
+            try:
+                if pw.returncode != 0 or not os.path.isdir(wdir):
+                    return None
+                with open(os.path.join(wdir, "config.worktree"), "w") as f:
+                    f.write('[%s]\n\t%s = "%s"\n' % (sec, var, cfg[1]))
+                with open(os.path.join(gd, "config.worktree"), "w") as f:
+                    f.write('[%s]\n\t%s = "%s"\n' % (sec, var, other))
+                return R.sizer(sz, wt, ["--no-progress"] + argv, env={}, tmpdir=d)
+            finally:
+                shutil.rmtree(gd, ignore_errors=True)
+                shutil.rmtree(wt, ignore_errors=True)
         if local is not None:
             # private copy of the repository's config only (objects shared through a symlinked layout is overkill: copy gitdir)
             gd = os.path.join(d, "local-%d%s" % (jid, tag))
@@ -149,6 +177,8 @@ def pair_job(arg):
                 shutil.rmtree(gd, ignore_errors=True)
 
     ra = run(A, "a")
+    if ra is None:
+        return [("INCONCLUSIVE", "could not create the linked worktree")], 0
     v = []
     ctx = {"family": fam, "what": desc, "A": A, "B": B, "scope": scope}
     if expect == "A-fails":
@@ -235,7 +265,8 @@ def run(chk, b, tier):
         for fam, desc, A, B, expect in keep:
             scopes = ["command"]
             if A[0] is not None:
-                scopes = [rng.choice(["command", "global", "local", "parameters"])] if tier == "quick" else ["command", "global", "local", "parameters"]
+                scopes = [rng.choice(["command", "global", "local", "parameters", "worktree"])] if tier == "quick" else \
+                    ["command", "global", "local", "parameters", "worktree"]
             for sc in scopes:
                 jobs.append((sz, gitdir, d, jid, fam, desc, A, B, expect, sc))
                 jid += 1
@@ -256,6 +287,9 @@ def run(chk, b, tier):
         fams[fam] = fams.get(fam, 0) + 1
         chk.nontrivial((job[4], job[5], repr(job[6]), repr(job[7]), job[9]))
         for clause, det in viol:
+            if clause == "INCONCLUSIVE":
+                chk.inconc(det)
+                continue
             chk.violation("C14/%s/%s/%s" % (fam, job[5], clause), det)
     chk.cov["pairs_per_family"] = fams
     chk.sample({"pair": {"A": jobs[0][6], "B": jobs[0][7], "scope": jobs[0][9]}})
@@ -265,6 +299,7 @@ def run(chk, b, tier):
                        "names, jsonVersion, progress (progress: presence of frames on stderr + identical stdout); every sequence "
                        "of length 2 and 3 over {--threshold=x, --verbose, --no-verbose, --critical, -v} == its last element; "
                        "documented equivalent spellings; configuration supplied at command (GIT_CONFIG_COUNT), "
-                       "GIT_CONFIG_PARAMETERS, global and local scope. Oracle: byte-identical stdout and equal exit status. "
+                       "GIT_CONFIG_PARAMETERS, global, local and per-worktree scope (linked worktree with extensions.worktreeConfig, a conflicting "
+                       "entry in the main worktree's config.worktree). Oracle: byte-identical stdout and equal exit status. "
                        "distinct = distinct (pair, scope).")
     shutil.rmtree(d, ignore_errors=True)
